@@ -55,16 +55,26 @@ Record jobconfig := mkJC {
   jc_lu : option Z            (* spec.schedule.lastUpdated *)
 }.
 
-(** getNext: expr.Next, then the notAfter cut ([next.After(naf)]: a time equal to
-    notAfter still fires). Inactive schedules have no expression. *)
+(** getNext: expr.Next; a result before notBefore is replaced by the first match at or
+    after notBefore ([expr.Next(nbf - 1ns)]); then the notAfter cut ([next.After(naf)]: a
+    time equal to notAfter still fires). Inactive schedules have no expression. *)
 Definition get_next (jc : jobconfig) (from : Z) : option Z :=
   if jc_active jc then
     match multi_next (jc_exprs jc) from with
     | None => None
     | Some s =>
-        match jc_naf jc with
-        | Some naf => if naf <? ns s then None else Some s
-        | None => Some s
+        let r :=
+          match jc_nbf jc with
+          | Some nbf => if ns s <? nbf then multi_next (jc_exprs jc) (nbf - 1) else Some s
+          | None => Some s
+          end in
+        match r with
+        | None => None
+        | Some s2 =>
+            match jc_naf jc with
+            | Some naf => if naf <? ns s2 then None else Some s2
+            | None => Some s2
+            end
         end
     end
   else None.
@@ -171,33 +181,25 @@ Fixpoint refresh (n : nat) (h : heap) (chan : list jobconfig) (now : Z) : heap *
   | S n', jc :: r => refresh n' (bump (h_delete (jc_key jc) h) jc now) r now
   end.
 
-(** The pop loop of Work. [now0] is the reading taken at the top of Work; each Pop
-    takes a fresh reading ([readings], the last one repeated).  Third component: true
-    when the fuel ran out (the loop did not terminate within the bound). *)
-Definition next_reading (now0 : Z) (rs : list Z) : Z * list Z :=
-  match rs with
-  | [] => (now0, [])
-  | [r] => (r, [r])
-  | r :: rs' => (r, rs')
-  end.
-
-Fixpoint work_loop (fuel : nat) (lister : list jobconfig) (maxc now0 : Z) (rs : list Z)
+(** The pop loop of Work. [now] is the single clock reading taken at the top of Work
+    (used by every Pop and by the cap branch). Third component: true when the fuel ran
+    out (the loop did not terminate within the bound). *)
+Fixpoint work_loop (fuel : nat) (lister : list jobconfig) (maxc now : Z)
          (h : heap) (c : counts) : heap * list (Z * Z) * bool :=
   match fuel with
   | O => (h, [], true)
   | S fuel' =>
-      let '(r, rs') := next_reading now0 rs in
-      match pop_due h r with
+      match pop_due h now with
       | None => (h, [], false)
       | Some (k, p, h') =>
           match lookup k lister with
-          | None => work_loop fuel' lister maxc now0 rs' h' c        (* syncOne error: entry dropped *)
+          | None => work_loop fuel' lister maxc now h' c        (* syncOne error: entry dropped *)
           | Some jc =>
               if maxc <=? get_count k c then
-                work_loop fuel' lister maxc now0 rs' (bump h' jc now0) c
+                work_loop fuel' lister maxc now (bump h' jc now) c
               else
                 let '(h2, reqs, oof) :=
-                  work_loop fuel' lister maxc now0 rs' (bump h' jc (ns p)) (incr_count k c) in
+                  work_loop fuel' lister maxc now (bump h' jc (ns p)) (incr_count k c) in
                 (h2, (k, p) :: reqs, oof)
           end
       end
@@ -213,12 +215,12 @@ Record wstate := mkW {
 Definition work_fuel (h : heap) (chan : list jobconfig) (maxc : Z) : nat :=
   ((length h + length chan) * (Z.to_nat (Z.max maxc 0) + 2) + 2)%nat.
 
-(** CronWorker.Work with the clock readings [now0 :: rs]. *)
-Definition work (lister : list jobconfig) (maxc : Z) (now0 : Z) (rs : list Z) (st : wstate)
+(** CronWorker.Work at clock reading [now0]. *)
+Definition work (lister : list jobconfig) (maxc : Z) (now0 : Z) (st : wstate)
   : wstate * list (Z * Z) * bool :=
   let '(h1, chan1) := refresh 1000 (w_heap st) (w_chan st) now0 in
   let '(h2, reqs, oof) :=
-    work_loop (work_fuel h1 (w_chan st) maxc) lister maxc now0 rs h1 [] in
+    work_loop (work_fuel h1 (w_chan st) maxc) lister maxc now0 h1 [] in
   (mkW h2 chan1, reqs, oof).
 
 (** ------------------------------------------------------------------ *)
@@ -250,7 +252,7 @@ Definition del_jc (k : Z) (l : list jobconfig) : list jobconfig :=
 
 Inductive op :=
 | OInit (thr_cfg : Z) (now : Z)              (* CronWorker.Init (also: restart) *)
-| OTick (maxc_cfg : option Z) (now0 : Z) (rs : list Z)
+| OTick (maxc_cfg : option Z) (now0 : Z)
 | OCreate (jc : jobconfig)                  (* Add event: no handler *)
 | OUpdate (jc : jobconfig) (changed : bool)
 | ODelete (k : Z)
@@ -260,8 +262,8 @@ Definition step (w : world) (o : op) : world * list (Z * Z) * bool :=
   match o with
   | OInit thr_cfg now =>
       (mkWorld (lister w) [] (mkW (new_heap (eff_threshold thr_cfg) now (lister w)) []), [], false)
-  | OTick maxc_cfg now0 rs =>
-      let '(st, reqs, oof) := work (lister w) (eff_max_missed maxc_cfg) now0 rs (ws w) in
+  | OTick maxc_cfg now0 =>
+      let '(st, reqs, oof) := work (lister w) (eff_max_missed maxc_cfg) now0 (ws w) in
       (mkWorld (lister w) (pending w) st, reqs, oof)
   | OCreate jc => (mkWorld (set_jc jc (lister w)) (pending w ++ [EvAdd jc]) (ws w), [], false)
   | OUpdate jc changed =>
